@@ -345,7 +345,7 @@ def clearPrefixInChildLimitTS (s : TS Î²) (ck p : Bytes) (limit : Nat) : TS Î² Ã
   | d :: r =>
     match B.getChild s.base ck with
     | .missing =>
-      let x := d.clearPrefixInChild ck p [] none
+      let x := d.clearPrefixInChild ck p [] (some limit)
       ({ s with txs := x.1 :: r }, .cnt x.2.1 x.2.2)
     | .dangling => (s, .panic)
     | .present c =>
